@@ -56,4 +56,66 @@ theorem C08_pending_never_matched (env : Env) (s : State) (c : Call) (askId bidI
     apply this
     unfold Ask.reduce; simp [hp]
 
+/-- what `paysExactly` says about one payee that occurs in the expected list -/
+theorem credit_of_paysExactly {c : String} {ms : List Msg} {exp : List (String × String × Nat)}
+    (h : paysExactly c ms exp = true) {x d : String} {n : Nat} (hm : (x, d, n) ∈ exp) :
+    credit c ms x d = expCredit exp x d := by
+  unfold paysExactly creditsMatch at h
+  simp only [Bool.and_eq_true, List.all_eq_true, beq_iff_eq] at h
+  refine h.2 x ?_ d ?_
+  · exact List.mem_append_right _ (List.mem_map.mpr ⟨_, hm, rfl⟩)
+  · exact List.mem_append_right _ (List.mem_map.mpr ⟨_, hm, rfl⟩)
+
+/-- C08 (release) from the C04 statement: what the approver of an approved ask gets back on a
+    cancel / expire / reject is exactly the decrease of the recorded approver amount -/
+theorem C08_release_of_C04 {contract : String} {s s' : State} {id : String} {requested : Option Nat}
+    {r : Response} (hs : sane s = true) (hok : C04_askOK contract s id requested r s' = true) :
+    C08_releaseOK contract s id r s' = true := by
+  unfold C04_askOK at hok
+  unfold C08_releaseOK
+  cases ha : s.asks.get? id with
+  | none => rfl
+  | some a =>
+    simp only [ha, Bool.and_eq_true, decide_eq_true_eq, beq_iff_eq] at hok ⊢
+    obtain ⟨⟨⟨hle, _⟩, hpay⟩, hafter⟩ := hok
+    have hf := sane_ask_facts hs ha
+    have hc := hf.cls_ok
+    cases hcl : a.cls with
+    | basic => rfl
+    | pending => rfl
+    | ready ap conv =>
+      simp only [hcl] at hc ⊢
+      obtain ⟨hne, _, hden, hamt⟩ := hc
+      have hmem : (ap, conv.denom, requested.getD a.size) ∈ askReversePays a (requested.getD a.size) := by
+        unfold askReversePays; simp [hcl]
+      rw [credit_of_paysExactly hpay hmem, expCredit_askReversePays]
+      simp only [hcl, and_self, if_true]
+      have hbase : ¬ (a.owner = ap ∧ a.base = conv.denom) := fun h => hne (h.2.trans hden)
+      simp only [hbase, if_false, Nat.zero_add]
+      unfold recordedApproverAmount
+      rw [hafter, askAfterReverse_eq]
+      have hsz : (a.reduce (requested.getD a.size)).size = a.size - requested.getD a.size := rfl
+      have hcls : (a.reduce (requested.getD a.size)).cls =
+          .ready ap ⟨conv.denom, a.size - requested.getD a.size⟩ := by
+        unfold Ask.reduce; simp only [hcl]
+      by_cases hz : (a.reduce (requested.getD a.size)).size = 0
+      · simp only [hz, if_true]
+        rw [hsz] at hz
+        rw [beq_iff_eq]; omega
+      · simp only [hz, if_false, hcls]
+        rw [beq_iff_eq]; omega
+
+/-- C08 (release), expire / reject -/
+theorem C08_release_reverse (env : Env) (s s' : State) (c : Call) (r : Response) (id : String)
+    (requested : Option Nat) (hs : sane s = true)
+    (hm : c.msg = .expireAsk id ∧ requested = none ∨ c.msg = .rejectAsk id requested)
+    (h : execute env s c = .ok (s', r)) : C08_releaseOK env.contract s id r s' = true :=
+  C08_release_of_C04 hs (C04_reverse_ask env s s' c r id requested hs hm h)
+
+/-- C08 (release), owner's cancel: the approver gets the whole recorded amount back -/
+theorem C08_release_cancel (env : Env) (s s' : State) (c : Call) (r : Response) (id : String)
+    (hs : sane s = true) (hm : c.msg = .cancelAsk id)
+    (h : execute env s c = .ok (s', r)) : C08_releaseOK env.contract s id r s' = true :=
+  C08_release_of_C04 hs (C04_cancel_ask env s s' c r id hs hm h)
+
 end Ats.Proofs
